@@ -355,21 +355,43 @@ func TestC20(t *testing.T) {
 				w2 := &tlog.Writer{ByteWriter: fw, DialectRW: g.drw()}
 				_ = w2.Initialize()
 				reported := false
-				for _, e := range accepted {
+				failedIdx := -1
+				for ei, e := range accepted {
 					err := w2.Write(&tlog.Entry{Time: e.t, Frame: e.frame()})
 					if err != nil {
+						if reported {
+							rep.Violation("what=werr@k", "a second write error was reported although the transport failed only once: "+err.Error(), k)
+							break
+						}
 						reported = true
+						failedIdx = ei
 						if err.Error() != "disk full" {
 							rep.Violation(fmt.Sprintf("what=werr@%s", "k"), "the transport's write error was replaced by another error: "+err.Error(), k)
 						}
-						break
+						// the application goes on logging: the transport works again
 					}
 				}
 				if !reported {
 					rep.Violation("what=werr@k", "a transport write error was not reported to the caller", map[string]interface{}{"k": k, "calls": calls})
 				}
-				if got := fw.all(); !bytes.HasPrefix(image, got) && fw.failMode != 1 {
-					rep.Violation("what=werr@k", "bytes accepted before a write error are not a prefix of the reference image", map[string]interface{}{"k": k})
+				if failedIdx >= 0 {
+					// what reached the file: the entries before the failed one, of the failed one exactly what the transport took
+					// (nothing / half / all), then every later entry, whole and once
+					var want []byte
+					for ei, e := range accepted {
+						switch {
+						case ei != failedIdx:
+							want = append(want, e.image...)
+						case fw.failMode == 1:
+							want = append(want, e.image[:len(e.image)/2]...)
+						case fw.failMode == 2:
+							want = append(want, e.image...)
+						}
+					}
+					if got := fw.all(); !bytes.Equal(got, want) {
+						rep.Violation("what=werr@k", "after a reported write error the log does not consist of the earlier entries, what the transport took of the failed one, and the later entries (each whole and once)",
+							map[string]interface{}{"k": k, "fail_mode": fw.failMode, "got_len": len(got), "want_len": len(want)})
+					}
 				}
 			}
 		}
